@@ -389,6 +389,26 @@ func TestC03(t *testing.T) {
 				independent.Eval(termCase{y, i})
 			}
 		}
+		// every term of every year whose instant lies within a minute of midnight (a handful per millennium): this is
+		// where "at or before", "strictly after" and "falls on that civil day" meet the day boundary, so the look-ups
+		// are asked on the eve, the day and the day after, at the day's ends and around the instant
+		for _, x := range gen.Terms(y) {
+			if tod := x.H*3600 + x.Mi*60 + x.S; x.Y == y && (tod <= 60 || tod >= 86340) {
+				for _, dd := range []int{-1, 0, 1} {
+					b := x.AddDays(dd)
+					for _, q := range []ref.DT{{Y: b.Y, M: b.M, D: b.D}, {Y: b.Y, M: b.M, D: b.D, H: 12}, {Y: b.Y, M: b.M, D: b.D, H: 23, Mi: 59, S: 59}, {Y: b.Y, M: b.M, D: b.D, S: 1}} {
+						if q.Y == y {
+							lookups.Eval(lookCase{q})
+						}
+					}
+				}
+				for _, o := range []int64{-2, -1, 0, 1, 2} {
+					if q := ref.FromSec(x.Sec() + o); q.Y == y {
+						lookups.Eval(lookCase{q})
+					}
+				}
+			}
+		}
 	}
 	for _, y := range years {
 		if !ev.Mine(y) {
